@@ -319,6 +319,7 @@ def real_runs(mon, lab, rng, n, tier):
                   lambda: RB.witness(case, seen=rep.seen))
         before = mon.counters.get("rollup.containers", 0)
         RB.check_rollup_live(mon, lab, obs, case, cleanup_failed=cleanup_failed)
+        RB.check_identity(mon, obs, case, prefix="rollup")
         ncont = len(obs.elem_status)
         mon.count("runs.containers_checked", ncont)
         if i == 0:
